@@ -31,6 +31,7 @@ class Harness:
         self.raised = {}  # nid -> [exception objects] in order
         self.args_seen = {}  # nid -> (args tuple, kwargs items list)  (last attempt)
         self.record_args = record_args
+        self.keep_exceptions = True  # C16 sets this to False: an exception's traceback pins frames, and through them results
         self.pre = None  # callable(nid, attempt) run inside the call, outside the lock; may block or raise
         self.post = None  # callable(nid, attempt, result)
         self.result_refs = {}  # nid -> weakref (C16)
@@ -91,7 +92,7 @@ class Harness:
                 with H.lock:
                     H.seq += 1
                     H.in_flight -= 1
-                    H.raised.setdefault(nid, []).append(e)
+                    H.raised.setdefault(nid, []).append(e if H.keep_exceptions else type(e).__name__)
                     H.events.append((H.seq, "raise", nid, tid, type(e).__name__))
                 raise
             with H.lock:
